@@ -358,6 +358,7 @@ where
         if s && !l { out.stat(&format!("{}sc-but-not-linearizable", tag)); }
     }
     out.stat(&format!("{}ops-{}", tag, nops));
+    if tag.is_empty() { out.sample(&format!("seeded: {} {} => lin={:?} sc={:?}", obj, cs, v.lin, v.sc)); }
     out.distinct(&(which, obj, cs));
     v
 }
